@@ -35,6 +35,10 @@ P_churn2 == (1 :> <<ld(1), ex>>) @@ (2 :> <<st(1)>>) @@ (3 :> <<ld(1), dg, dothe
 \* generation wrap (GenMod small, fallback forced by NF = 0)
 P_wrap == (1 :> <<ld(1), dg, ld(1), dg, ld(1), dg>>) @@ (2 :> <<st(1), st(1)>>)
 P_wrapw == (1 :> <<lf(1), dh, st(1), lf(1), dh>>) @@ (2 :> <<st(1)>>)
+cas(c) == [k |-> "cas", c |-> c]
+\* compare_and_swap against a handle loaded earlier, racing with a store (the stale handle makes it fail) and with another CAS
+P_cas == (1 :> <<lf(1), cas(1), dg, dh>>) @@ (2 :> <<st(1)>>)
+P_cas2 == (1 :> <<lf(1), cas(1), dg, dh>>) @@ (2 :> <<lf(1), cas(1), dg, dh>>)
 cn(c)  == [k |-> "cnew", c |-> c]
 cl     == [k |-> "cload", c |-> 0]
 cd     == [k |-> "cdrop", c |-> 0]
